@@ -59,6 +59,7 @@ def run(rep, tier):
     sources_stream(rep, r, 40 * scale)
     symmetry_stream(rep, r, 25 * scale)
     quadratic_edge_flips(rep, r, 20 * scale)
+    quadratic_halfpixel_start(rep, r, 8 * scale)
     xpeak_stream(rep, r, 16 * scale)
 
 
@@ -388,6 +389,45 @@ def quadratic_edge_flips(rep, r, n):
             rep.violation(f'centroid-{bad[0]}:centroid_quadratic:edge', f'centroid_quadratic(fit_boxsize={fb}) on a source {d:.2f} px from the {edge} edge of a {ny} x {nx} frame: '
                           f'result {(float(x), float(y))}, on the x-flipped image {(float(fx), float(fy))}, y-flipped {(float(ux), float(uy))}, transposed '
                           f'(box swapped) {(float(tx), float(ty))}', {'image': img.tolist(), 'fit_boxsize': list(fb)})
+
+
+def quadratic_halfpixel_start(rep, r, n):
+    """(S) a start position given on an exact half pixel belongs to the pixel `py2intround` names (ties away from zero) whatever the
+    parity of its integer part: (a) an exactly quadratic peak with its vertex at x = 0.8 and xpeak = 0.5 is fitted (start pixel 1, not the edge
+    pixel 0) and returns the vertex; (b) shifting the image by one pixel and the start by one shifts the result by exactly one (seed C17-r10
+    used round-half-even: 4.5 -> 4 but 5.5 -> 6)"""
+    from photutils.centroids import centroid_quadratic
+    for k in range(n):
+        ny, nx = r.randint(7, 11), r.randint(7, 11)
+        xv, yv = r.choice([0.8, 0.7, 0.9]), r.randint(8, 4 * (ny - 3)) / 4
+        c20, c02 = -r.choice([0.5, 1.0]), -r.choice([0.5, 1.0])
+        img = quad_image(ny, nx, 50.0, -2 * c20 * xv, -2 * c02 * yv, 0.0, c20, c02)
+        with warnings.catch_warnings():
+            warnings.simplefilter('ignore')
+            x, y = centroid_quadratic(img, xpeak=0.5, ypeak=float(round(yv)), fit_boxsize=3)
+            xt, yt = centroid_quadratic(img.T.copy(), xpeak=float(round(yv)), ypeak=0.5, fit_boxsize=3)
+        rep.case(('quad-half', 'edge', ny, nx, xv, yv), True, kind='quadratic-halfpixel-start:edge')
+        rep.probe_only += 1
+        if not (close(x, xv, 1e-7) and close(y, yv, 1e-7) and close(xt, yv, 1e-7) and close(yt, xv, 1e-7)):
+            rep.violation('quadratic-vertex:halfpixel-start', f'exactly quadratic peak with vertex {(xv, yv)}, xpeak = 0.5 (pixel 1 by the documented rounding): '
+                          f'centroid_quadratic = {(float(x), float(y))}; transposed with ypeak = 0.5: {(float(xt), float(yt))}', {'image': img.tolist(), 'xpeak': 0.5, 'ypeak': float(round(yv))})
+            continue
+        # (b) translation by one pixel with a half-pixel start
+        yy, xx = np.mgrid[0:15, 0:17]
+        cx, cy = r.uniform(5.6, 6.4), r.uniform(6.6, 7.4)
+        g0 = 100 * np.exp(-0.5 * (((xx - cx) / 1.7) ** 2 + ((yy - cy) / 1.4) ** 2))
+        g1 = 100 * np.exp(-0.5 * (((xx - cx - 1) / 1.7) ** 2 + ((yy - cy - 1) / 1.4) ** 2))
+        for xp, yp in [(math.floor(cx) + 0.5, float(round(cy))), (float(round(cx)), math.floor(cy) + 0.5)]:
+            with warnings.catch_warnings():
+                warnings.simplefilter('ignore')
+                a = centroid_quadratic(g0, xpeak=xp, ypeak=yp, fit_boxsize=3)
+                b = centroid_quadratic(g1, xpeak=xp + 1, ypeak=yp + 1, fit_boxsize=3)
+            rep.case(('quad-half', 'shift', cx, cy, xp, yp), True, kind='quadratic-halfpixel-start:translation')
+            rep.probe_only += 1
+            if not (close(b[0], a[0] + 1, 1e-8) and close(b[1], a[1] + 1, 1e-8)):
+                rep.violation('centroid-translate:centroid_quadratic:halfpixel-start', f'Gaussian at {(cx, cy)}, start {(xp, yp)}: result {tuple(map(float, a))}; image and start '
+                              f'shifted by (1, 1): {tuple(map(float, b))}', {'centre': [cx, cy], 'xpeak': xp, 'ypeak': yp})
+                break
 
 
 def replay(rep, data):
